@@ -201,6 +201,24 @@ def run_bcrypt(env, sh):
                 KDF.bcrypt_check(pw, out)
             except ValueError:
                 env.check(False, 'bcrypt_check accepts the hash just produced')
+            # ... and nothing else: any other 60-byte string that differs in one character (prefix, cost, salt -- also in
+            # the unused low bits of the last salt character -- or digest) is refused
+            if not env.sym or isinstance(out, bytes):
+                outb = bytes(out)
+                alphabet = b"./ABCDEFGHIJKLMNOPQRSTUVWXYZabcdefghijklmnopqrstuvwxyz0123456789"
+                # (positions whose change alters the *decoded* cost or salt are not used: the EksBlowfish core is a stub that
+                #  ignores them, so such a string would be the genuine hash of the altered parameters)
+                for pos in (28, 29, 40, 59):
+                    ch = outb[pos]
+                    for alt in (alphabet[(alphabet.index(ch) + 1) % 64], alphabet[alphabet.index(ch) ^ 1], alphabet[alphabet.index(ch) ^ 8]) if pos != 28 else (alphabet[alphabet.index(ch) ^ 1], alphabet[alphabet.index(ch) ^ 8], alphabet[alphabet.index(ch) ^ 4]):
+                        if alt == ch:
+                            continue
+                        forged = outb[:pos] + bytes([alt]) + outb[pos + 1:]
+                        try:
+                            KDF.bcrypt_check(pw, forged)
+                            env.check(False, 'bcrypt_check refuses a hash string that differs from the genuine one at character %d' % pos)
+                        except ValueError:
+                            env.check(True, 'forged hash refused')
     finally:
         KDF._bcrypt_hash = real
 
@@ -267,7 +285,69 @@ def run_pbkdf2_assist(env, sh):
         env.check(got == acc, 'result == xor of the HMAC chain U_1..U_c')
 
 
-HARNESSES = dict(pbkdf2_assist=Harness('pbkdf2_assist', run_pbkdf2_assist), pbkdf2=Harness('pbkdf2', run_pbkdf2), pbkdf1=Harness('pbkdf1', run_pbkdf1), hkdf=Harness('hkdf', run_hkdf),
+def run_scrypt_romix_c(env, sh):
+    """the real scryptROMix / scryptBlockMix of src/scrypt.c (LLSYM) with the Salsa20/8 core an uninterpreted function,
+    all 128 r input bytes symbolic: result == RFC 7914 s4-5 (block shuffling Y0,Y2,..,Y1,Y3,.., V table, Integerify)"""
+    from vlib.llsym import kern
+    P = env.P
+    r, N = sh['r'], sh['N']
+    # `static` / `inline` compiled away so that scryptBlockMix is callable in the gcc-built replay library too
+    K = kern.kernel(env, 'scrypt.c', extra_macros=('static=', 'inline='))
+    n = 128 * r
+    data = env.bytes('B', n)
+
+    def core(ins):
+        x, y = ins[0], ins[1]
+        if env.sym:
+            from vlib.pysym import core as pc
+            x, y = pc.SymBytes(x), pc.SymBytes(y)
+        else:
+            x, y = bytes(x), bytes(y)
+        return 0, {2: P.uf("SALSA20_8_CORE", [x, y], 64)}
+    cb = K.callback('salsa20_8_core_stub', core, [(0, 64, False), (1, 64, False), (2, 64, True)])
+    def salsa(x, y):
+        return P.uf("SALSA20_8_CORE", [x, y], 64)
+
+    def blockmix(B):
+        blocks = [B[64 * i:64 * i + 64] for i in range(2 * r)]
+        X = blocks[-1]
+        Y = []
+        for b in blocks:
+            X = salsa(X, b)          # Salsa20/8(X xor B_i)
+            Y.append(X)
+        return P.concat(*([Y[i] for i in range(0, 2 * r, 2)] + [Y[i] for i in range(1, 2 * r, 2)]))
+    if sh.get('blockmix'):
+        p_out = K.out(n, 'out')
+        K.call('scryptBlockMix', K.buf(data, False, 'in'), p_out, 2 * r, cb)
+        K.check_memory_safe()
+        env.check(K.read(p_out, n) == blockmix(data), 'scryptBlockMix == RFC 7914 s4 (Y_0, Y_2, .., Y_1, Y_3, ..) for r = %d' % r)
+        return
+    aliased = sh.get('inplace', False)
+    if aliased:
+        p_in = K.buf(data, True, 'inout')
+        p_out = p_in
+    else:
+        p_in = K.buf(data, False, 'in')
+        p_out = K.out(n, 'out')
+    rr = K.call('scryptROMix', p_in, p_out, n, N, cb)
+    env.check(rr == 0, 'scryptROMix succeeds')
+    K.check_memory_safe()
+    env.check(K.live_heap() == [], 'the V table is released')
+    X = data
+    V = []
+    for _ in range(N):
+        V.append(X)
+        X = blockmix(X)
+    for _ in range(N):
+        j = P.b2i(X[64 * (2 * r - 1):64 * (2 * r - 1) + 4], 'little') & (N - 1)
+        sel = V[N - 1]
+        for k in range(N - 2, -1, -1):
+            sel = env.ite_bytes(j == k, V[k], sel)
+        X = blockmix(P.xor(X, sel))
+    env.check(K.read(p_out, n) == X, 'scryptROMix(B, N) == RFC 7914 ROMix with BlockMix shuffling for r = %d' % r)
+
+
+HARNESSES = dict(scrypt_romix_c=Harness('scrypt_romix_c', run_scrypt_romix_c), pbkdf2_assist=Harness('pbkdf2_assist', run_pbkdf2_assist), pbkdf2=Harness('pbkdf2', run_pbkdf2), pbkdf1=Harness('pbkdf1', run_pbkdf1), hkdf=Harness('hkdf', run_hkdf),
                  sp800_108=Harness('sp800_108', run_sp800_108), scrypt_params=Harness('scrypt_params', run_scrypt_params, max_paths=20000),
                  scrypt_flow=Harness('scrypt_flow', run_scrypt_flow), bcrypt=Harness('bcrypt', run_bcrypt, max_paths=20000))
 
@@ -284,9 +364,14 @@ def shapes(tier):
                     jobs.append(('pbkdf2', dict(hash=hname, path=path, dklen=dk, count=count, plen=3, slen=5)))
             for plen in ((0, 1, bl - 1, bl, bl + 1) if th else (0, bl, bl + 1)):
                 jobs.append(('pbkdf2', dict(hash=hname, path=path, dklen=hl + 1, count=2, plen=plen, slen=0 if plen == 0 else 8)))
-    for algo in (('SHA256', 'SHA1', 'SHA512', 'SHA224', 'SHA384', 'MD5') if th else ('SHA256', 'SHA1', 'SHA512')):
-        for it in (0, 1, 2, 3):
+    for algo in (('SHA256', 'SHA1', 'SHA512', 'SHA224', 'SHA384', 'SHA512_224', 'SHA512_256', 'MD5') if th else ('SHA256', 'SHA1', 'SHA512', 'SHA224', 'SHA384')):
+        for it in (0, 1, 2, 3) if th or algo in ('SHA256', 'SHA1', 'SHA512') else (2,):
             jobs.append(('pbkdf2_assist', dict(algo=algo, iterations=it)))
+    # src/scrypt.c with the Salsa20/8 core uninterpreted
+    for r in (1, 2, 3, 4, 5, 6, 7, 8) if th else (1, 2, 3, 5):
+        jobs.append(('scrypt_romix_c', dict(r=r, N=1, blockmix=True)))
+    for r, N, inplace in ((1, 1, False), (3, 1, False), (2, 1, True), (1, 2, False), (1, 2, True)) + (((5, 1, True), (6, 1, False)) if th else ()):
+        jobs.append(('scrypt_romix_c', dict(r=r, N=N, inplace=inplace)))
     for slen, dk, count in ((8, 20, 1), (8, 1, 3), (8, 16, 2), (7, 16, 2), (9, 16, 2), (8, 21, 1)):
         jobs.append(('pbkdf1', dict(plen=4, slen=slen, dklen=dk, count=count)))
     for hname in ('SHA256', 'SHA512') if th else ('SHA256',):
